@@ -7,6 +7,7 @@ from ..core.cfg import ENTRY, EXIT
 from ..core.callgraph import CallGraph
 from ..core.effects import Effects
 from . import common as K
+from . import flowalg
 
 EXPLANATION = (
     "R08a: Model.__init__ keeps the program set, instructions and framework only as deep copies. R08b (effect summaries over the call graph): nothing reachable "
@@ -37,6 +38,7 @@ def run(ctx):
     ctx.each(r08b, ctx, repo, cg, E)
     ctx.each(r08c, ctx, repo, cg)
     ctx.each(r08d, ctx, repo, cg, E)
+    ctx.each(flowalg.process_prologue, ctx, repo, "R08f")
     ctx.each(r08e, ctx, repo)
 
 
